@@ -93,6 +93,8 @@ func runC07(p *load.Program, r *oblig.Report) {
 	// a produce attempt that outlives its deadline on a stalled connection would be appended behind later batches
 	transportDeadline(p, r, "C07.R5 an abandoned produce attempt cannot be delivered late")
 	c07CheckThenRegister(p, r, "C07.R2 one sender per partition, retries are synchronous")
+	// a retry resends the batch as it was: nothing between two attempts touches it (the loop shape of C01.R3)
+	shareRules(r, "C07", "C07.R6 a retried batch is the batch that failed", func(sub *oblig.Report) { c01RetryLoop(p, sub) })
 }
 
 func c07Queue(p *load.Program, r *oblig.Report) {
